@@ -74,7 +74,7 @@ def install_repo_contracts(ex, clock=None):
         n = int(m.group(1)) if m.group(1).isdigit() else ex_.const_generics[m.group(1)]
         return one(Arr(fresh_bytes('kdfn'), 'u8', n))
     ex.overrides.append((re.compile(r'(^|::)kdf16$'), kdf16))
-    ex.overrides.append((re.compile(r'(^|::)kdfn::<(\w+)>$'), kdfn))
+    ex.overrides.append((re.compile(r'(?:^|::)kdfn::<(\w+)>$'), kdfn))
 
     def hkdfsha1(ex_, p, m, a, func, fr):
         _arr, _off, ln = ex_.bytes_view(p.st, a[1])
@@ -85,6 +85,23 @@ def install_repo_contracts(ex, clock=None):
     def session_sub_key(ex_, p, m, a, func, fr):
         return one(Arr(fresh_bytes('subkey'), 'u8', 32))
     ex.overrides.append((re.compile(r'(^|::)session_sub_key$'), session_sub_key))
+
+    def crc32(ex_, p, m, a, func, fr):
+        return one((fresh('crc32', z3.BitVecSort(32)), 'u32'))
+    ex.overrides.append((re.compile(r'(^|::)crc32$'), crc32))
+
+    def fnv(ex_, p, m, a, func, fr):
+        return one((fresh('fnv1a32', z3.BitVecSort(32)), 'u32'))
+    ex.overrides.append((re.compile(r'(?:^|::)fnv1a32$'), fnv))
+
+    def session_init(ex_, p, m, a, func, fr):
+        # (Client|Server)Session::init: response iv/key are SHA-256 prefixes of the request iv/key (hash plumbing): fresh arrays
+        return one(Agg('struct', (a[0], a[1], Arr(fresh_bytes('resp_iv'), 'u8', 16), Arr(fresh_bytes('resp_key'), 'u8', 16), a[2]), m.group(1)))
+    ex.overrides.append((re.compile(r'(ClientSession|ServerSession)::init$'), session_init))
+
+    def chacha_key(ex_, p, m, a, func, fr):
+        return one(Arr(fresh_bytes('chachakey'), 'u8', 32))
+    ex.overrides.append((re.compile(r'(?:^|::)generate_chacha20_poly1305_key$'), chacha_key))
 
     def hex_decode(ex_, p, m, a, func, fr):
         _arr, _off, ln = ex_.bytes_view(p.st, a[0])
@@ -117,8 +134,11 @@ def ecb_contract(ex):
         s = ex_.as_sref(p.st, a[1])
         n = s.len if m.group(2) == 'decrypt' else a[2][0]
 
+        eo = fresh_bytes('ecb')
+
         def app(q):
-            ex_.bytes_fill(q.st, s, fresh_bytes('ecb'), bv64(0), n)
+            ex_.bytes_fill(q.st, s, eo, bv64(0), n)
+            q.ghost.setdefault('ecb', []).append(('ok', eo, n))
         return one(U(), oblig=[(z3.UGE(klen, bv64(ks)), 'Aes%sEcbNoPadding: key shorter than %d bytes' % (m.group(1), ks)),
                                (z3.And(z3.URem(n, bv64(16)) == 0, z3.ULE(n, s.len)), 'Aes%sEcbNoPadding: length not a multiple of the block size' % m.group(1))], apply=app)
     ex.overrides.append((re.compile(r'Aes(128|256)EcbNoPadding::(encrypt|decrypt)$'), ecb))
@@ -139,6 +159,40 @@ def user_manager_contract(ex, nusers_term=None):
         return [dict(cond=z3.And(found, n != 0), value=opt_some(val)), dict(cond=z3.Not(z3.And(found, n != 0)), value=opt_none())]
     ex.overrides.append((re.compile(r'ServerUserManager::<.*>::user_count$'), user_count))
     ex.overrides.append((re.compile(r'ServerUserManager::<.*>::(get_user_by_hash|clone_user_by_hash)$'), get_user))
+
+
+def vmess_option_contract(ex):
+    """RequestOption::{from_mask, get_mask} and <[RequestOption]>::contains on the option set as a bit mask
+    (the discriminants are the wire bits 1,2,4,8,16); from_mask/get_mask are cross-checked by Kani on the real code"""
+    def from_mask(ex_, p, m, a, func, fr):
+        return one(Agg('optmask', (a[0],), 'OptionSet'))
+
+    def get_mask(ex_, p, m, a, func, fr):
+        v = ex_.deref_all(p.st, a[0])
+        if isinstance(v, Agg) and v.kind == 'optmask':
+            # the real get_mask unwraps a reduce(): an empty set panics
+            return one((v.fields[0][0] & 0x1f, 'u8'), oblig=[((v.fields[0][0] & 0x1f) != 0, 'RequestOption::get_mask on an empty option list (Option::unwrap on None)')])
+        if isinstance(v, List):
+            acc = bvv(0, 8)
+            for it in v.items:
+                acc = acc | z3.Extract(7, 0, it.disc)
+            if not v.items:
+                return [dict(panic='RequestOption::get_mask on an empty option list')]
+            return one((acc, 'u8'))
+        raise Inconclusive('get_mask on %r' % (v,))
+
+    def contains(ex_, p, m, a, func, fr):
+        v = ex_.deref_all(p.st, a[0])
+        x = ex_.deref_all(p.st, a[1])
+        if isinstance(v, Agg) and v.kind == 'optmask':
+            return one(((v.fields[0][0] & z3.Extract(7, 0, x.disc)) != 0, 'bool'))
+        if isinstance(v, List):
+            return one((z3.Or(*[it.disc == x.disc for it in v.items]) if v.items else F, 'bool'))
+        raise Inconclusive('contains on %r' % (v,))
+    ex.overrides.append((re.compile(r'RequestOption::from_mask$'), from_mask))
+    ex.overrides.append((re.compile(r'RequestOption::get_mask$'), get_mask))
+    ex.overrides.append((re.compile(r'<impl \[RequestOption\]>::contains$'), contains))
+    ex.overrides.append((re.compile(r'^<(?:std::vec::)?Vec<RequestOption> as (?:std::ops::)?Deref>::deref$'), lambda ex_, p, m, a, f, fr: one(a[0])))
 
 
 def decoder_violation_replay(entry, extra=None):
